@@ -60,3 +60,33 @@ func VerifC20Instructions() {
 	}
 	zzverif.Reach("C20.instr.done")
 }
+
+// VerifC20UnusableObservations: when either party's observed addresses cannot be classified (too
+// few of them, not host:port) the exchange ends with an error for that session - no instructions
+// are computed from half a picture, and the server does not crash on it.
+func VerifC20UnusableObservations() {
+	bad := map[string][]string{
+		"single":  {"1.1.1.1:100"},
+		"none":    nil,
+		"garbage": {"not an address", "1.1.1.1:100"},
+	}
+	bk := []string{"single", "none", "garbage"}[zzverif.Choice("unusable", 3)]
+	who := zzverif.Choice("whose", 3) // 0 the client's, 1 the visitor's, 2 both
+	ca, va := c20iAddrs["easy"], c20iAddrs["hard"]
+	if who != 1 {
+		ca = bad[bk]
+	}
+	if who != 0 {
+		va = bad[bk]
+	}
+	c, _ := NewController(0)
+	s := &Session{sid: "sid",
+		clientMsg:  &msg.NatHoleClient{TransactionID: "tc", MappedAddrs: append([]string(nil), ca...)},
+		visitorMsg: &msg.NatHoleVisitor{TransactionID: "tv", MappedAddrs: append([]string(nil), va...), Protocol: "quic"}}
+	vResp, cResp, err := c.analysis(s)
+	zzverif.Assert(err != nil && vResp == nil && cResp == nil, "C20.unusable.no-instructions-from-observations-that-cannot-be-classified")
+	if who == 0 {
+		zzverif.Reach("C20.unusable.client-side")
+	}
+	zzverif.Reach("C20.unusable.done")
+}
